@@ -1890,6 +1890,15 @@ def p_instanceDeclaration(p):
 
             if embedded_object_type:
                 if pval:
+                    pvals = pval if isinstance(pval, list) else [pval]
+                    if not all(isinstance(pv, str) for pv in pvals):
+                        raise MOFParseError(
+                            msg=_format(
+                                "Property {0!A} with value {1!A} is an "
+                                "embedded {2} property, its value must be "
+                                "a string or an array of strings",
+                                cprop.name, pval, embedded_object_type),
+                            parser_token=p)
                     objs = p.parser.mofcomp.compile_embedded_value(pval, ns)
                     for obj in objs:
                         if not isinstance(inst, allowed_types):
